@@ -57,7 +57,31 @@ def readClasses (s : String) : Option (List (Nat × Nat)) :=
     | [g, c] => do pure ((← g.toNat?), (← c.toNat?))
     | _ => none
 
+def showActs (a : List Action) : String := ".".intercalate (a.map fun x => s!"{x.1}@{x.2}")
+
+def readActs (s : String) : Option (List Action) :=
+  if s.isEmpty then some [] else
+  (s.splitOn ".").mapM fun e =>
+    match e.splitOn "@" with
+    | [i, p] => do pure ((← i.toNat?), (← p.toNat?))
+    | _ => none
+
+def showSeqRule (r : SeqRule) : String := showL r.input "." ++ "~" ++ showActs r.actions
+def showChRule (r : ChRule) : String :=
+  showL r.back "." ++ "~" ++ showL r.input "." ++ "~" ++ showL r.look "." ++ "~" ++ showActs r.actions
+
+def showSets (ss : List (List Nat)) : String :=
+  ",".intercalate (ss.map fun s => if s.isEmpty then "e" else showL s ".")
+
 def showSub : Subtable → String
+  | .ctx1 rules => "l:" ++ ",".intercalate (rules.map fun p => s!"{p.1}>" ++ "+".intercalate (p.2.map showSeqRule))
+  | .ctx2 cov cls rules => s!"m:{showL cov "."}:{showClasses cls}:" ++
+      ",".intercalate (rules.map fun rs => "+".intercalate (rs.map showSeqRule))
+  | .ctx3 input acts => s!"n:{showSets input}:{showActs acts}"
+  | .chain1 rules => "o:" ++ ",".intercalate (rules.map fun p => s!"{p.1}>" ++ "+".intercalate (p.2.map showChRule))
+  | .chain2 cov b i l rules => s!"p:{showL cov "."}:{showClasses b}:{showClasses i}:{showClasses l}:" ++
+      ",".intercalate (rules.map fun rs => "+".intercalate (rs.map showChRule))
+  | .chain3 back input look acts => s!"q:{showSets back}:{showSets input}:{showSets look}:{showActs acts}"
   | .gpos1_1 cov adj => s!"f:{",".intercalate (cov.map toString)}:{showVR adj}"
   | .gpos1_2 cov adj => "g:" ++ ",".intercalate ((cov.zip adj).map fun p => s!"{p.1}>{showVR p.2}")
   | .gpos2_1 pairs => "h:" ++ ",".intercalate (pairs.map fun p => s!"{p.1.1}+{p.1.2}>{showPA p.2}")
@@ -99,8 +123,42 @@ def readPairEntry (entry : String) : Option ((Nat × Nat) × PairAdj) :=
     | _ => none
   | _ => none
 
+def readLd (s : String) : Option (List Nat) := if s.isEmpty then some [] else (s.splitOn ".").mapM String.toNat?
+
+def readSeqRule (s : String) : Option SeqRule :=
+  match s.splitOn "~" with
+  | [i, a] => do pure ⟨(← readLd i), (← readActs a)⟩
+  | _ => none
+
+def readChRule (s : String) : Option ChRule :=
+  match s.splitOn "~" with
+  | [b, i, l, a] => do pure ⟨(← readLd b), (← readLd i), (← readLd l), (← readActs a)⟩
+  | _ => none
+
+def readRules {β : Type} (rd : String → Option β) (s : String) : Option (List β) :=
+  if s.isEmpty then some [] else (s.splitOn "+").mapM rd
+
+def readSets (s : String) : Option (List (List Nat)) :=
+  if s.isEmpty then some [] else (s.splitOn ",").mapM fun e => if e == "e" then some [] else readLd e
+
+def readGroups {β : Type} (rd : String → Option β) (s : String) : Option (List (Nat × List β)) :=
+  if s.isEmpty then some [] else
+  (s.splitOn ",").mapM fun e =>
+    match e.splitOn ">" with
+    | [g, r] => do pure ((← g.toNat?), (← readRules rd r))
+    | _ => none
+
 def readSub (s : String) : Option Subtable :=
   match s.splitOn ":" with
+  | ["l", body] => do pure (.ctx1 (← readGroups readSeqRule body))
+  | ["m", cov, cls, rules] => do
+    pure (.ctx2 (← readLd cov) (← readClasses cls) (← (rules.splitOn ",").mapM (readRules readSeqRule)))
+  | ["n", input, acts] => do pure (.ctx3 (← readSets input) (← readActs acts))
+  | ["o", body] => do pure (.chain1 (← readGroups readChRule body))
+  | ["p", cov, b, i, l, rules] => do
+    pure (.chain2 (← readLd cov) (← readClasses b) (← readClasses i) (← readClasses l)
+      (← (rules.splitOn ",").mapM (readRules readChRule)))
+  | ["q", back, input, look, acts] => do pure (.chain3 (← readSets back) (← readSets input) (← readSets look) (← readActs acts))
   | ["a", cov, d] => do pure (.gsub1_1 (← readL cov ".") (← d.toNat?))
   | ["b", body] => do
     let ps ← readPairs body String.toNat?
